@@ -265,7 +265,7 @@ def apply_impl(fs, op):
             else:
                 raise ValueError(k)
         return 'ok'
-    except Exception as e:
+    except (Exception, lib.Hang) as e:
         return exc_class(e)
 
 
